@@ -1,26 +1,29 @@
 /-
 C11 — Node clock serialises concurrent callers: no duplicate or regressing stamps.
 
-Model: the clock actor (`datacake-node/src/clock.rs: run_clock`) handles one event at a time from
-a FIFO queue: `Get` runs `HLCTimestamp::send` and replies with the result, `Register(ts)` runs
-`recv` and ignores a refusal.  Whatever the interleaving of the callers' enqueues, the actor sees
-*some* sequence of events, each with the wall reading at its processing time — `C09.Call` lists.
-So "for all interleavings of get_time/register_ts calls from several tasks" is "for all event
-lists", and the statements are corollaries of `C09.history_monotone`.
+Model (`Model/Clock.lean`): the clock actor (`datacake-node/src/clock.rs: run_clock`) handles one
+event at a time from a FIFO queue: `Get` runs `HLCTimestamp::send` and replies with the result,
+`Register(ts)` runs `recv`; since fix D19 an exhausted counter makes the clock carry on with the next
+instant instead of stopping the actor / dropping the registration.  Whatever the interleaving of the
+callers' enqueues, the actor sees *some* sequence of events, each with the wall reading at its
+processing time.  So "for all interleavings of get_time/register_ts calls from several tasks" is
+"for all event lists".
 
 What is assumed of the runtime (and observed by the correspondence run, not proved): the flume
 channel is FIFO with a single consumer, and a reply reaches the caller that asked.
 -/
 import Datacake.Props.C09
+import Datacake.Model.Clock
 
 namespace Datacake.C11
-open Datacake.Ts Datacake.C09
+open Datacake.Ts Datacake.Clock
+open Datacake.C09 (IsU64 send_spec recv_spec recv_error_iff recv_no_panic)
 
 /-- The replies to `Get` events, in processing order. -/
 def replies : List Ev → List Nat
   | [] => []
   | .issued t :: rest => t :: replies rest
-  | .accepted _ :: rest => replies rest
+  | .registered _ _ :: rest => replies rest
 
 theorem mem_replies (evs : List Ev) (t : Nat) : t ∈ replies evs ↔ Ev.issued t ∈ evs := by
   induction evs with
@@ -28,60 +31,343 @@ theorem mem_replies (evs : List Ev) (t : Nat) : t ∈ replies evs ↔ Ev.issued 
   | cons e es ih =>
     cases e with
     | issued u => simp [replies, ih]
-    | accepted m => simp [replies, ih]
+    | registered w m => simp [replies, ih]
+
+def _root_.Datacake.Clock.Req.WallOk : Req → Prop
+  | .get w => C09.WallOk w
+  | .register w _ => C09.WallOk w
+
+/-! ### One event -/
+
+theorem nextInstant_spec (t nd n : Nat) (hnd : nd < 256) (h : nextInstant t nd = some n) :
+    t < n ∧ node n = nd ∧ dts n = dts t + 4 ∧ counter n = 0 ∧ IsU64 n ∧ fractional n < 250 := by
+  unfold nextInstant new? at h
+  split at h
+  · rename_i hs
+    injection h with h; subst h
+    unfold durSecs at hs
+    have h4 := dts_mod4 t
+    have hs' : (dts t + 4) / 1000 < 4294967296 := by omega
+    obtain ⟨_, f2, f3, f4⟩ := pack_fields (dts t + 4) 0 nd hs' (by omega) hnd
+    refine ⟨lt_pack t (dts t + 4) 0 nd hs' (by omega) (Or.inl (by omega)), f4,
+      dts_pack _ _ _ hs' (by omega) hnd (by omega), f3, ?_, by rw [f2]; omega⟩
+    unfold IsU64; rw [pack_eq _ _ _ hs']; omega
+  · cases h
+
+/-- `Get`: the reply is strictly above the clock, under the clock's node id, and a valid stamp. -/
+theorem onGet_spec (c w c' : Nat) (hw : C09.WallOk w) (h : onGet c w = some c') :
+    c < c' ∧ node c' = node c ∧ IsU64 c' ∧ fractional c' < 250 := by
+  unfold onGet at h
+  cases hs : send c w with
+  | ok c1 =>
+    rw [hs] at h; injection h with h; subst h
+    obtain ⟨h1, h2, _, _, _, h6, h7⟩ := send_spec c w c1 hw hs
+    exact ⟨h1, h2, h6, h7⟩
+  | error e =>
+    rw [hs] at h
+    cases e with
+    | overflow =>
+      simp only at h
+      cases hn : nextInstant c (node c) with
+      | none => rw [hn] at h; cases h
+      | some n =>
+        rw [hn] at h
+        simp only at h
+        obtain ⟨g1, g2, _⟩ := nextInstant_spec c (node c) n (node_lt c) hn
+        cases hs2 : send n w with
+        | ok c2 =>
+          rw [hs2] at h; injection h with h; subst h
+          obtain ⟨h1, h2, _, _, _, h6, h7⟩ := send_spec n w c2 hw hs2
+          exact ⟨by omega, by rw [h2, g2], h6, h7⟩
+        | error e2 => rw [hs2] at h; cases h
+    | duplicatedNode => cases h
+    | clockDrift => cases h
+
+/-- `Register`: the clock never moves backwards and keeps its node id and validity. -/
+theorem onRegister_mono (c w r : Nat) (hw : C09.WallOk w) (hc : IsU64 c ∧ fractional c < 250) :
+    c ≤ onRegister c w r ∧ node (onRegister c w r) = node c ∧
+    IsU64 (onRegister c w r) ∧ fractional (onRegister c w r) < 250 := by
+  unfold onRegister
+  cases h1 : recv c w r with
+  | ok p =>
+    obtain ⟨c', x⟩ := p
+    obtain ⟨g1, _, g3, _, _, _, _, _, g9, g10⟩ := recv_spec c w r c' x hw h1
+    exact ⟨by simp only; omega, g3, g9, g10⟩
+  | panic => exact ⟨Nat.le_refl _, rfl, hc.1, hc.2⟩
+  | err e =>
+    cases e with
+    | duplicatedNode => exact ⟨Nat.le_refl _, rfl, hc.1, hc.2⟩
+    | clockDrift => exact ⟨Nat.le_refl _, rfl, hc.1, hc.2⟩
+    | overflow =>
+      simp only
+      cases hn : nextInstant r (node r) with
+      | none => exact ⟨Nat.le_refl _, rfl, hc.1, hc.2⟩
+      | some n =>
+        simp only
+        cases h2 : recv c w n with
+        | ok p =>
+          obtain ⟨c', x⟩ := p
+          obtain ⟨g1, _, g3, _, _, _, _, _, g9, g10⟩ := recv_spec c w n c' x hw h2
+          exact ⟨by simp only; omega, g3, g9, g10⟩
+        | panic => exact ⟨Nat.le_refl _, rfl, hc.1, hc.2⟩
+        | err e => exact ⟨Nat.le_refl _, rfl, hc.1, hc.2⟩
+
+/-- When `recv` must succeed. -/
+theorem recv_ok_of (c w m : Nat) (hnode : node c ≠ node m) (hd1 : dts m ≤ w + MAX_CLOCK_DRIFT_MS)
+    (hd2 : dts c ≤ w + MAX_CLOCK_DRIFT_MS) (hrg : ¬ durSecs (max (max (dts c) w) (dts m)) > TIMESTAMP_MAX)
+    (hctr : recvCounter (max (max (dts c) w) (dts m)) (dts c) (dts m) (counter c) (counter m) ≠ .error .overflow) :
+    ∃ c' x, recv c w m = .ok (c', x) := by
+  obtain ⟨e1, e2, e3⟩ := recv_error_iff c w m
+  cases h : recv c w m with
+  | ok p => exact ⟨p.1, p.2, rfl⟩
+  | panic => exact absurd h (recv_no_panic c w m)
+  | err e =>
+    cases e with
+    | duplicatedNode => exact absurd (e1.1 h) hnode
+    | clockDrift =>
+      obtain ⟨_, hh⟩ := e2.1 h
+      rcases hh with hh | hh <;> omega
+    | overflow =>
+      obtain ⟨_, _, _, hh⟩ := e3.1 h
+      rcases hh with hh | hh
+      · exact absurd hh hrg
+      · exact absurd hh hctr
+
+/-- A stamp with a later time is greater than a VALID stamp with an earlier one. -/
+theorem lt_of_dts_lt (a c : Nat) (hc : IsU64 c ∧ fractional c < 250) (h : dts a < dts c) : a < c := by
+  have hs := seconds_lt c hc.1
+  have hsd : dts c / 1000 < 4294967296 := by unfold dts partsAsDuration; omega
+  have := lt_pack a (dts c) (counter c) (node c) hsd (dts_mod4 c) (Or.inl h)
+  have hrep : pack (dts c) (counter c) (node c) = c := by
+    rw [pack_eq _ _ _ hsd]
+    have hd := decomp c
+    unfold dts partsAsDuration at *
+    omega
+  omega
+
+/-- **register_takes_effect**: a `Register(r)` of a remote stamp (another node's) that is
+strictly inside the allowed drift leaves the clock strictly above `r` — whatever the counters
+are (fix D19: an exhausted counter no longer makes the actor drop the registration).
+`hrange`: the wall clock (plus the drift) is representable, i.e. it is before the year 2159. -/
+theorem register_takes_effect (c w r : Nat) (hw : C09.WallOk w) (hc : IsU64 c ∧ fractional c < 250)
+    (hnode : node c ≠ node r) (hdrift : dts r + 4 ≤ w + MAX_CLOCK_DRIFT_MS)
+    (hrange : (w + MAX_CLOCK_DRIFT_MS) / 1000 ≤ TIMESTAMP_MAX) :
+    r < onRegister c w r := by
+  have hmono := (onRegister_mono c w r hw hc).1
+  unfold C09.WallOk at hw
+  have h4c := dts_mod4 c
+  have h4r := dts_mod4 r
+  obtain ⟨e1, e2, e3⟩ := recv_error_iff c w r
+  cases h1 : recv c w r with
+  | ok p =>
+    obtain ⟨c', x⟩ := p
+    have := (recv_spec c w r c' x hw h1).2.1
+    unfold onRegister; rw [h1]; exact this
+  | panic => exact absurd h1 (recv_no_panic c w r)
+  | err e =>
+    cases e with
+    | duplicatedNode => exact absurd (e1.1 h1) hnode
+    | clockDrift =>
+      obtain ⟨_, hh⟩ := e2.1 h1
+      rcases hh with hh | hh
+      · omega
+      · -- the clock itself is beyond the drift: it is above the remote stamp already
+        have : r < c := lt_of_dts_lt r c hc (by omega)
+        omega
+    | overflow =>
+      obtain ⟨_, hd1, hd2, hh⟩ := e3.1 h1
+      rcases hh with hh | hh
+      · exfalso; unfold durSecs at hh; omega
+      · -- a counter is exhausted: the clock moves on to the instant after `r`
+        have hs' : durSecs (dts r + 4) ≤ TIMESTAMP_MAX := by unfold durSecs; omega
+        have hn : nextInstant r (node r) = some (pack (dts r + 4) 0 (node r)) := by
+          unfold nextInstant new?; rw [if_pos hs']
+        obtain ⟨g1, g2, g3, g4, _, _⟩ := nextInstant_spec r (node r) _ (node_lt r) hn
+        by_cases hlt : dts r < dts c
+        · have : r < c := lt_of_dts_lt r c hc hlt
+          omega
+        · -- the new time of the second `recv` is the instant after `r`: above the clock and the wall
+          have hge : dts c ≤ dts r := by omega
+          have hwr : w ≤ dts r := by
+            -- otherwise the time would have moved to the wall and the counter restarted
+            by_cases hwr : w ≤ dts r
+            · exact hwr
+            · exfalso
+              unfold recvCounter at hh
+              have hmx : max (max (dts c) w) (dts r) = w := by omega
+              rw [hmx] at hh
+              split at hh
+              · omega
+              · split at hh
+                · omega
+                · split at hh
+                  · omega
+                  · cases hh
+          have hok : ∃ c' x, recv c w (pack (dts r + 4) 0 (node r)) = .ok (c', x) := by
+            apply recv_ok_of
+            · rw [g2]; exact hnode
+            · rw [g3]; omega
+            · exact hd2
+            · rw [g3]; unfold durSecs; omega
+            · rw [g3, g4]
+              have hmx : max (max (dts c) w) (dts r + 4) = dts r + 4 := by omega
+              rw [hmx]
+              unfold recvCounter
+              rw [if_neg (by omega), if_neg (by omega), if_pos rfl, if_neg (by omega)]
+              intro hcontra; cases hcontra
+          obtain ⟨c', x, hok⟩ := hok
+          have := (recv_spec c w _ c' x hw hok).2.1
+          unfold onRegister
+          rw [h1]
+          simp only
+          rw [hn]
+          simp only
+          rw [hok]
+          simp only
+          omega
+
+/-! ### Every queue of events -/
+
+/-- Everything the actor issues is above the clock it started from and carries its node id. -/
+theorem run_issued_gt (reqs : List Req) : ∀ (c : Nat), (∀ q ∈ reqs, q.WallOk) → (IsU64 c ∧ fractional c < 250) →
+    ∀ t, Ev.issued t ∈ run (some c) reqs → c < t ∧ node t = node c := by
+  induction reqs with
+  | nil => intro c _ _ t ht; simp [run] at ht
+  | cons q rest ih =>
+    intro c hw hc t ht
+    have hwq := hw q List.mem_cons_self
+    have hwr : ∀ x ∈ rest, x.WallOk := fun x hx => hw x (List.mem_cons_of_mem _ hx)
+    cases q with
+    | get w =>
+      simp only [run] at ht
+      cases hg : onGet c w with
+      | none => rw [hg] at ht; simp at ht
+      | some c' =>
+        rw [hg] at ht
+        simp only [List.mem_cons] at ht
+        obtain ⟨g1, g2, g3, g4⟩ := onGet_spec c w c' hwq hg
+        rcases ht with ht | ht
+        · injection ht with ht; subst ht; exact ⟨g1, g2⟩
+        · obtain ⟨i1, i2⟩ := ih c' hwr ⟨g3, g4⟩ t ht
+          exact ⟨by omega, by rw [i2, g2]⟩
+    | register w r =>
+      simp only [run, List.mem_cons] at ht
+      obtain ⟨g1, g2, g3, g4⟩ := onRegister_mono c w r hwq hc
+      rcases ht with ht | ht
+      · cases ht
+      · obtain ⟨i1, i2⟩ := ih _ hwr ⟨g3, g4⟩ t ht
+        exact ⟨by omega, by rw [i2, g2]⟩
 
 /-- **replies_strictly_increasing**: for every sequence of events the actor processes — i.e. every
-interleaving of any number of concurrent callers, with stalled, jumping or backwards wall clock —
-the replies to `get_time` are strictly increasing in processing order, hence pairwise distinct. -/
-theorem replies_strictly_increasing (c : Nat) (calls : List Call) (hw : ∀ call ∈ calls, call.WallOk) :
-    (replies (run c calls)).Pairwise (· < ·) := by
-  have h := history_monotone c calls hw
-  generalize run c calls = evs at h
-  induction evs with
-  | nil => exact List.Pairwise.nil
-  | cons e es ih =>
-    obtain ⟨h1, h2⟩ := List.pairwise_cons.1 h
-    cases e with
-    | issued u =>
-      simp only [replies]
-      refine List.Pairwise.cons ?_ (ih h2)
-      intro t ht
-      exact h1 _ ((mem_replies es t).1 ht) t rfl
-    | accepted m => simpa [replies] using ih h2
+interleaving of any number of concurrent callers, with stalled, jumping or backwards wall clock,
+registrations of any remote stamps, counters exhausted or not — the replies to `get_time` are
+strictly increasing in processing order, hence pairwise distinct. -/
+theorem replies_strictly_increasing (reqs : List Req) : ∀ (c : Nat), (∀ q ∈ reqs, q.WallOk) →
+    (IsU64 c ∧ fractional c < 250) → (replies (run (some c) reqs)).Pairwise (· < ·) := by
+  induction reqs with
+  | nil => intro c _ _; simp [run, replies]
+  | cons q rest ih =>
+    intro c hw hc
+    have hwq := hw q List.mem_cons_self
+    have hwr : ∀ x ∈ rest, x.WallOk := fun x hx => hw x (List.mem_cons_of_mem _ hx)
+    cases q with
+    | get w =>
+      simp only [run]
+      cases hg : onGet c w with
+      | none => simp [replies]
+      | some c' =>
+        simp only [replies]
+        obtain ⟨_, _, g3, g4⟩ := onGet_spec c w c' hwq hg
+        refine List.Pairwise.cons ?_ (ih c' hwr ⟨g3, g4⟩)
+        intro t ht
+        exact (run_issued_gt rest c' hwr ⟨g3, g4⟩ t ((mem_replies _ t).1 ht)).1
+    | register w r =>
+      simp only [run, replies]
+      obtain ⟨_, _, g3, g4⟩ := onRegister_mono c w r hwq hc
+      exact ih _ hwr ⟨g3, g4⟩
 
-/-- All replies are pairwise distinct. -/
-theorem replies_distinct (c : Nat) (calls : List Call) (hw : ∀ call ∈ calls, call.WallOk) :
-    (replies (run c calls)).Nodup :=
-  (replies_strictly_increasing c calls hw).imp (fun h => Nat.ne_of_lt h)
+theorem replies_distinct (reqs : List Req) (c : Nat) (hw : ∀ q ∈ reqs, q.WallOk)
+    (hc : IsU64 c ∧ fractional c < 250) : (replies (run (some c) reqs)).Nodup :=
+  (replies_strictly_increasing reqs c hw hc).imp (fun h => Nat.ne_of_lt h)
 
 /-- **per_task_increasing**: a task asks for its next stamp only after it received the previous
 one, so its own replies are a subsequence of the processing order — and every subsequence of the
 replies is strictly increasing. -/
-theorem per_task_increasing (c : Nat) (calls : List Call) (hw : ∀ call ∈ calls, call.WallOk)
-    (mine : List Nat) (hsub : mine.Sublist (replies (run c calls))) : mine.Pairwise (· < ·) :=
-  List.Pairwise.sublist hsub (replies_strictly_increasing c calls hw)
+theorem per_task_increasing (reqs : List Req) (c : Nat) (hw : ∀ q ∈ reqs, q.WallOk)
+    (hc : IsU64 c ∧ fractional c < 250) (mine : List Nat) (hsub : mine.Sublist (replies (run (some c) reqs))) :
+    mine.Pairwise (· < ·) :=
+  List.Pairwise.sublist hsub (replies_strictly_increasing reqs c hw hc)
 
-/-- **after_register_greater**: a `get_time` processed after an accepted `register_ts(r)` replies
-with a stamp greater than `r`.  (A registration is refused — and then has no effect — exactly when
-`r` carries the clock's own node id, is beyond the allowed drift, or would exhaust the counter:
-`C09.recv_error_iff`.) -/
-theorem after_register_greater (c : Nat) (calls : List Call) (hw : ∀ call ∈ calls, call.WallOk)
-    (pre post : List Ev) (r t : Nat) (h : run c calls = pre ++ Ev.accepted r :: post)
-    (ht : Ev.issued t ∈ post) : r < t := by
-  have hm := history_monotone c calls hw
-  rw [h] at hm
-  have h2 := (List.pairwise_append.1 hm).2.1
-  exact (List.pairwise_cons.1 h2).1 _ ht t rfl
+/-- **after_register_greater**: every `get_time` processed after a `register_ts(r)` of a remote
+stamp that is strictly inside the allowed drift replies with a stamp greater than `r`.  No
+condition on counters.  (The only stamps inside the drift bound that are left out are those
+EXACTLY at the limit: the next instant is then beyond the drift, which `send`/`recv` enforce - C09.) -/
+theorem after_register_greater (reqs : List Req) : ∀ (c : Nat), (∀ q ∈ reqs, q.WallOk) →
+    (IsU64 c ∧ fractional c < 250) → ∀ (pre post : List Ev) (w r t : Nat),
+    run (some c) reqs = pre ++ Ev.registered w r :: post →
+    node c ≠ node r → dts r + 4 ≤ w + MAX_CLOCK_DRIFT_MS → (w + MAX_CLOCK_DRIFT_MS) / 1000 ≤ TIMESTAMP_MAX →
+    Ev.issued t ∈ post → r < t := by
+  induction reqs with
+  | nil => intro c _ _ pre post w r t h; simp [run] at h
+  | cons q rest ih =>
+    intro c hw hc pre post w r t h hnode hdrift hrange ht
+    have hwq := hw q List.mem_cons_self
+    have hwr : ∀ x ∈ rest, x.WallOk := fun x hx => hw x (List.mem_cons_of_mem _ hx)
+    cases q with
+    | get w0 =>
+      simp only [run] at h
+      cases hg : onGet c w0 with
+      | none => rw [hg] at h; simp at h
+      | some c' =>
+        rw [hg] at h
+        simp only at h
+        obtain ⟨_, g2, g3, g4⟩ := onGet_spec c w0 c' hwq hg
+        cases pre with
+        | nil => simp at h
+        | cons e pre' =>
+          simp only [List.cons_append, List.cons.injEq] at h
+          exact ih c' hwr ⟨g3, g4⟩ pre' post w r t h.2 (by rw [g2]; exact hnode) hdrift hrange ht
+    | register w0 r0 =>
+      simp only [run] at h
+      obtain ⟨_, g2, g3, g4⟩ := onRegister_mono c w0 r0 hwq hc
+      cases pre with
+      | nil =>
+        simp only [List.nil_append, List.cons.injEq] at h
+        obtain ⟨he, hpost⟩ := h
+        injection he with hw0 hr0
+        subst hw0; subst hr0
+        have heff := register_takes_effect c w0 r0 hwq hc hnode hdrift hrange
+        rw [← hpost] at ht
+        have := (run_issued_gt rest _ hwr ⟨g3, g4⟩ t ht).1
+        omega
+      | cons e pre' =>
+        simp only [List.cons_append, List.cons.injEq] at h
+        exact ih _ hwr ⟨g3, g4⟩ pre' post w r t h.2 (by rw [g2]; exact hnode) hdrift hrange ht
 
-/-- Every reply carries the node's own id. -/
-theorem replies_node (c : Nat) (calls : List Call) (hw : ∀ call ∈ calls, call.WallOk) (t : Nat)
-    (h : t ∈ replies (run c calls)) : node t = node c :=
-  issued_node c calls hw t ((mem_replies _ t).1 h)
+/-- Every reply carries the clock's own node id. -/
+theorem replies_node (reqs : List Req) (c : Nat) (hw : ∀ q ∈ reqs, q.WallOk) (hc : IsU64 c ∧ fractional c < 250)
+    (t : Nat) (h : t ∈ replies (run (some c) reqs)) : node t = node c :=
+  (run_issued_gt reqs c hw hc t ((mem_replies _ t).1 h)).2
+
+/-! ### Witnesses -/
+
+/-- Defect D19 (pinned arms of the actor): a remote stamp 50 s ahead whose counter is `u16::MAX` is
+dropped - the clock stays where it was and the next reply is BELOW the registered stamp; with the
+counter at `u16::MAX - 1` the registration is taken and the next `get_time` stops the actor.  The
+current arms move on to the next instant in both cases. -/
+theorem legacy_drops_registration :
+    let c := pack 1000000 0 1
+    let r := pack 1050000 65535 2
+    onRegisterLegacy c 1000000 r = c ∧ onGetLegacy c 1000000 = some (pack 1000000 1 1) ∧ pack 1000000 1 1 < r ∧
+    onRegister c 1000000 r = pack 1050004 1 1 ∧ r < pack 1050004 1 1 ∧
+    onGetLegacy (onRegisterLegacy c 1000000 (pack 1050000 65534 2)) 1000000 = none ∧
+    onGet (onRegister c 1000000 (pack 1050000 65534 2)) 1000000 = some (pack 1050004 1 1) := by
+  decide
 
 /-- Non-vacuity: three callers interleaved, a stalled wall clock and a registration in between. -/
 example :
-    replies (run (pack 1000000 0 1)
-      [.send 1000000, .send 1000000, .recv 1000000 (pack 1000400 9 7), .send 1000000, .send 999000]) =
+    replies (run (some (pack 1000000 0 1))
+      [.get 1000000, .get 1000000, .register 1000000 (pack 1000400 9 7), .get 1000000, .get 999000]) =
       [pack 1000000 1 1, pack 1000000 2 1, pack 1000400 11 1, pack 1000400 12 1] := by decide
 
 end Datacake.C11
